@@ -1943,6 +1943,122 @@ example := C07.ccl1l2_list_projection (⟨Real.sqrt, 0⟩ : Env ℝ) [1, 4] 2 2 
   (by intro i hi; interval_cases i <;> simp [Finset.sum_range_succ])
 
 
+/-! ### optimality through the separable-sum node -/
+
+/-- Optimality THROUGH the separable-sum node of the executed `Fn.prox`
+(`SeparableSum.proximal` / `combine_proximals`), for ALL sub-trees `f`, `rest`, all lists, a
+float step `s` or a list of steps `s :: ss` (one float per summand): if the proximal point of
+the first summand minimises `Fa(z) + Σ wa_i (z_i − xa_i)²/(2s)` with the quadratic gap and that
+of the remaining sum minimises `Fb(z) + Σ wb_i (z_i − xb_i)²/(2σb_i)` with the gap (`σb` the
+per-entry steps of the rest: constant `s` for a float step), then the point computed by the
+`.sep` node is the concatenation of the two and minimises
+`Fa(z₁) + Fb(z₂) + Σ_i W_i (Z_i − X_i)²/(2σ_i)` over all `Z = z₁ ++ z₂`, with the quadratic gap, in
+the concatenated weighted norm with the block-wise steps.  CONDITIONAL on the two part
+properties, which are the conclusions of the leaf theorems (`C07.l1_list_minimises`,
+`C07.huber_list_minimises`, `C07.l1l2_list_minimises`, … — see the example below) or of this
+theorem itself for a nested sum (after rewriting `(xa ++ xb).length`). -/
+theorem C07.sep_list_minimises (E : Env K) (f rest : Fn K) (wa wb xa xb za zb : List K) (s : K)
+    (sig s2 : Sig K) (σb : ℕ → K) (Fa Fb : List K → K)
+    (hsig : (sig = .sc s ∧ s2 = .sc s) ∨ (∃ ss, sig = .vec (s :: ss) ∧ s2 = .vec ss))
+    (hw : wa.length = xa.length) (hza : za.length = xa.length)
+    (hla : (f.prox E wa (.sc s) xa).length = xa.length)
+    (ha : Fa (f.prox E wa (.sc s) xa) + ∑ i ∈ range xa.length, wa.getD i 0 *
+          ((((f.prox E wa (.sc s) xa).getD i 0 - xa.getD i 0) ^ 2
+            + (za.getD i 0 - (f.prox E wa (.sc s) xa).getD i 0) ^ 2) / (2 * s))
+        ≤ Fa za + ∑ i ∈ range xa.length, wa.getD i 0 *
+          ((za.getD i 0 - xa.getD i 0) ^ 2 / (2 * s)))
+    (hb : Fb (rest.prox E wb s2 xb) + ∑ i ∈ range xb.length, wb.getD i 0 *
+          ((((rest.prox E wb s2 xb).getD i 0 - xb.getD i 0) ^ 2
+            + (zb.getD i 0 - (rest.prox E wb s2 xb).getD i 0) ^ 2) / (2 * σb i))
+        ≤ Fb zb + ∑ i ∈ range xb.length, wb.getD i 0 *
+          ((zb.getD i 0 - xb.getD i 0) ^ 2 / (2 * σb i))) :
+    let p := Fn.prox E (.sep xa.length f rest) (wa ++ wb) sig (xa ++ xb)
+    let σ := fun i => if i < xa.length then s else σb (i - xa.length)
+    p = f.prox E wa (.sc s) xa ++ rest.prox E wb s2 xb ∧
+    Fa (p.take xa.length) + Fb (p.drop xa.length)
+        + ∑ i ∈ range (xa.length + xb.length), (wa ++ wb).getD i 0 *
+          (((p.getD i 0 - (xa ++ xb).getD i 0) ^ 2
+            + ((za ++ zb).getD i 0 - p.getD i 0) ^ 2) / (2 * σ i))
+      ≤ Fa ((za ++ zb).take xa.length) + Fb ((za ++ zb).drop xa.length)
+        + ∑ i ∈ range (xa.length + xb.length), (wa ++ wb).getD i 0 *
+          (((za ++ zb).getD i 0 - (xa ++ xb).getD i 0) ^ 2 / (2 * σ i)) := by
+  intro p σ
+  have hp : p = f.prox E wa (.sc s) xa ++ rest.prox E wb s2 xb := by
+    rcases hsig with ⟨h1, h2⟩ | ⟨ss, h1, h2⟩
+    · simp only [p, h1, h2]; exact C07.sep_prox_append_scalar E f rest wa wb xa xb s hw
+    · simp only [p, h1, h2]; exact C07.sep_prox_append_list E f rest wa wb xa xb s ss hw
+  refine ⟨hp, ?_⟩
+  have hσa : ∀ i ∈ range xa.length, σ i = s := by
+    intro i hi; simp only [σ, if_pos (mem_range.mp hi)]
+  have hσb : ∀ i, σ (xa.length + i) = σb i := by
+    intro i; simp only [σ]; rw [if_neg (by omega), Nat.add_sub_cancel_left]
+  rw [hp, ← hla, List.take_left, List.drop_left, hla, ← hza, List.take_left, List.drop_left, hza,
+    Finset.sum_range_add, Finset.sum_range_add]
+  have e1 : ∀ i ∈ range xa.length, (wa ++ wb).getD i 0 *
+      ((((f.prox E wa (.sc s) xa ++ rest.prox E wb s2 xb).getD i 0 - (xa ++ xb).getD i 0) ^ 2
+        + ((za ++ zb).getD i 0 - (f.prox E wa (.sc s) xa ++ rest.prox E wb s2 xb).getD i 0) ^ 2)
+          / (2 * σ i))
+      = wa.getD i 0 * ((((f.prox E wa (.sc s) xa).getD i 0 - xa.getD i 0) ^ 2
+            + (za.getD i 0 - (f.prox E wa (.sc s) xa).getD i 0) ^ 2) / (2 * s)) := by
+    intro i hi
+    have hi' := mem_range.mp hi
+    rw [getD_app_left wa wb i (by rw [hw]; exact hi'), getD_app_left _ _ i (by rw [hla]; exact hi'),
+      getD_app_left xa xb i hi', getD_app_left za zb i (by rw [hza]; exact hi'), hσa i hi]
+  have e2 : ∀ i ∈ range xb.length, (wa ++ wb).getD (xa.length + i) 0 *
+      ((((f.prox E wa (.sc s) xa ++ rest.prox E wb s2 xb).getD (xa.length + i) 0
+          - (xa ++ xb).getD (xa.length + i) 0) ^ 2
+        + ((za ++ zb).getD (xa.length + i) 0
+          - (f.prox E wa (.sc s) xa ++ rest.prox E wb s2 xb).getD (xa.length + i) 0) ^ 2)
+          / (2 * σ (xa.length + i)))
+      = wb.getD i 0 * ((((rest.prox E wb s2 xb).getD i 0 - xb.getD i 0) ^ 2
+            + (zb.getD i 0 - (rest.prox E wb s2 xb).getD i 0) ^ 2) / (2 * σb i)) := by
+    intro i _
+    rw [getD_app_right wa wb _ i hw, getD_app_right _ _ _ i hla,
+      getD_app_right xa xb _ i rfl, getD_app_right za zb _ i hza, hσb i]
+  have e3 : ∀ i ∈ range xa.length, (wa ++ wb).getD i 0 *
+      (((za ++ zb).getD i 0 - (xa ++ xb).getD i 0) ^ 2 / (2 * σ i))
+      = wa.getD i 0 * ((za.getD i 0 - xa.getD i 0) ^ 2 / (2 * s)) := by
+    intro i hi
+    have hi' := mem_range.mp hi
+    rw [getD_app_left wa wb i (by rw [hw]; exact hi'),
+      getD_app_left xa xb i hi', getD_app_left za zb i (by rw [hza]; exact hi'), hσa i hi]
+  have e4 : ∀ i ∈ range xb.length, (wa ++ wb).getD (xa.length + i) 0 *
+      (((za ++ zb).getD (xa.length + i) 0 - (xa ++ xb).getD (xa.length + i) 0) ^ 2
+        / (2 * σ (xa.length + i)))
+      = wb.getD i 0 * ((zb.getD i 0 - xb.getD i 0) ^ 2 / (2 * σb i)) := by
+    intro i _
+    rw [getD_app_right wa wb _ i hw, getD_app_right xa xb _ i rfl,
+      getD_app_right za zb _ i hza, hσb i]
+  rw [Finset.sum_congr rfl e1, Finset.sum_congr rfl e2, Finset.sum_congr rfl e3,
+    Finset.sum_congr rfl e4]
+  linarith [ha, hb]
+
+/-- Non-vacuity and composition: the two hypotheses of `C07.sep_list_minimises` are DISCHARGED by
+the leaf theorems for `SeparableSum(L1Norm(rn(2, weighting=[1,2])), Huber(rn(1, weighting=1/2), 1/2))`
+with the per-summand steps `[1/2, 2]`, giving an unconditional optimality statement for that
+executed tree at `x = (3, 1/2 | −2)` against `z = (0, 1 | 1)`. -/
+example :=
+  C07.sep_list_minimises (⟨id, 0⟩ : Env ℚ) (.l1 1 none) (.huber (1 / 2))
+    [1, 2] [1 / 2] [3, 1 / 2] [-2] [0, 1] [1] (1 / 2) (.vec [1 / 2, 2]) (.vec [2]) (fun _ => 2)
+    (fun z => ∑ i ∈ range 2, ([1, 2] : List ℚ).getD i 0 * (1 * |z.getD i 0 - gAt none i|))
+    (fun z => ∑ i ∈ range 1, ([1 / 2] : List ℚ).getD i 0 * huberFn (1 / 2) (z.getD i 0))
+    (Or.inr ⟨[2], rfl, rfl⟩) rfl rfl
+    (C07.l1_list_minimises (⟨id, 0⟩ : Env ℚ) 1 none [1, 2] [3, 1 / 2] [0, 1] (.sc (1 / 2)) one_pos
+      (by intro i hi; simp at hi; interval_cases i <;> simp)
+      (by intro i _; simp [Sig.at])).1
+    (by
+      have h := (C07.l1_list_minimises (⟨id, 0⟩ : Env ℚ) 1 none [1, 2] [3, 1 / 2] [0, 1]
+        (.sc (1 / 2)) one_pos (by intro i hi; simp at hi; interval_cases i <;> simp)
+        (by intro i _; simp [Sig.at])).2
+      simp only [mul_add, Finset.sum_add_distrib, Sig.at] at h
+      exact h)
+    (by
+      have h := (C07.huber_list_minimises (⟨id, 0⟩ : Env ℚ) (1 / 2) 2 [1 / 2] [-2] [1]
+        (by norm_num) (by norm_num) (by intro i hi; simp at hi; subst hi; simp)).2
+      simp only [mul_add, Finset.sum_add_distrib] at h
+      exact h)
+
+
 end Group
 
 /-! ## Kullback–Leibler (over ℝ, `np.sqrt` = `Real.sqrt`) -/
